@@ -32,8 +32,8 @@ def run(tier, seed):
     for s, v in zip(sweeps, verdicts):
         npts += v["n"]
         if not v["ok"]:
-            why = "nonfinite" if not v["finite"] else ("range" if v["range"] else "mono" if v["mono"] else "bound" if v["bound"] else "exact" if v["exact"] else "order")
-            idx = (v["range"] or v["mono"] or v["bound"] or v["exact"] or [0])[0]
+            why = "nonfinite" if not v["finite"] else ("range" if v["range"] else "mono" if v["mono"] else "bound" if v["bound"] else "exact" if v["exact"] else "pure" if v.get("pure") else "order")
+            idx = (v["range"] or v["mono"] or v["bound"] or v["exact"] or v.get("pure") or [0])[0]
             V.add(f"{s['f']}.{why}", {"crop": {"name": s["crop"]}}, {"function": s["f"], "x": s.get("x"), "first_bad_point": s["pts"][idx - 1: idx + 1] if idx else None, "verdict": v})
     rc = V.report()
     byf = {}
